@@ -76,7 +76,12 @@ class _Builder:
                 gap = 0
         if contig is None:
             k = self.draw(st.integers(0, len(pool)))
-            if k == len(pool):
+            elsewhere = [c for c in self.hap_cursor if c not in pool]
+            if k == len(pool) and elsewhere and self.draw(st.integers(0, 3)) == 0:
+                # an assembly contig with segments in more than one chromosome (translocation, chimeric contig)
+                contig = self.draw(st.sampled_from(sorted(elsewhere)))
+                pool.append(contig)
+            elif k == len(pool):
                 h = self.draw(st.integers(1, 5))
                 contig = "%s#%d#%s.ctg%d" % (self.draw(st.sampled_from(["HG002", "NA1_2", "hap-A", "NA,3"])), h, chrom["name"],
                                              self.draw(st.integers(0, 1)))  # PanSN style: HG002#1#ctg0 and HG002#2#ctg0 are different contigs
